@@ -560,6 +560,10 @@ func generateTables(source *syntax.Model, out *grammar.Grammar, opts genOptions,
 					rule.RHS = append(rule.RHS, lalr.Marker(i))
 				case syntax.Command:
 					// Note: those are end-of-rule commands and typically there is at most one.
+					if command != "" {
+						// Two code blocks cannot share a line in every target language ("}{" is not valid Go).
+						command += "\n"
+					}
 					command += expr.Name
 					args = expr.CmdArgs // It is okay to override the args - the new ones are more permissive.
 					cmdOrigin = expr.Origin
